@@ -927,6 +927,8 @@ class StaticGenerativeFunction(Generic[R], GenerativeFunction[R]):
         ) = regenerate_transform(self.source)(
             key, trace, selection, edit_request, argdiffs
         )
+        if not Diff.static_check_tree_diff(retval_diffs):
+            retval_diffs = Diff.no_change(retval_diffs)
 
         def make_bwd_request(
             traces: dict[StaticAddress, Trace[R]],
